@@ -139,6 +139,19 @@ def templates(cfg):
         return t >> p.mutate(a=e) >> p.mutate(d=e) >> p.select(p.C.d, p.C.a) >> p.mutate(a=e)
 
     out.append(Template("c02.t.reuse_arith_expr", T_I3, reuse_arith, props=("C02",)))
+    # select / drop / overwriting mutate only HIDE columns: the hidden original stays referable and keeps its data when the
+    # pipeline is cut into a SQL subquery where the hidden and the visible column share one name (round 5, C02-F)
+    ARR = lambda p, t: t >> p.arrange(t.b.nulls_last(), t.c.nulls_last(), t.a.nulls_last())  # noqa: E731
+
+    def hidden_namesake_filter(p, t):
+        return ARR(p, t >> p.mutate(a=t.a * 2 + 1)) >> p.slice_head(2) >> p.alias("z", keep_col_refs=True) >> p.filter(t.a > 0) >> p.mutate(w=t.a, v=p.C.a)
+
+    out.append(Template("c02.t.hidden_namesake_subquery_filter", T_I3, hidden_namesake_filter, props=("C02",)))
+
+    def hidden_namesake_window(p, t):
+        return t >> p.mutate(a=t.b, r=p.row_number(arrange=[t.a.nulls_last(), t.b.nulls_last(), t.c.nulls_last()])) >> p.alias("z", keep_col_refs=True) >> p.filter(p.C.r <= 2) >> p.mutate(w=t.a, v=p.C.a)
+
+    out.append(Template("c02.t.hidden_namesake_subquery_window", T_I3, hidden_namesake_window, props=("C02",)))
     # drop / select only hide columns: the remaining ones keep their relative order, also after an
     # overwriting mutate (compared with the same pipeline without the helper column, prog2)
     def E(name, A, B):
@@ -183,4 +196,7 @@ def templates(cfg):
         seqs = core + rotated(rest, 1000, cfg.seed)
     for seq in seqs:
         out.append(Template("c02.s." + "-".join(seq), T_I3, chain(*[STEPS[s] for s in seq]), props=("C02",)))
+    from . import gen
+
+    out += gen.templates_for("C02", cfg)  # compositions drawn from the typed pipeline grammar (pv/corpora/gen.py)
     return out
